@@ -66,6 +66,13 @@ func (ws *WritingState) ComputeState() *WritingState {
 func (ws *WritingState) Start(filenamePattern, path string, config *WriteControlConfig) error {
 	ws.Lock()
 	defer ws.Unlock()
+	// If the experiment-state file cannot be created, the START is rejected: change nothing in that case.
+	previousFilename := ws.ExperimentStateFilename
+	ws.ExperimentStateFilename = fmt.Sprintf(filenamePattern, "experiment_state", "txt")
+	if err := ws.setExperimentStateLabel(time.Now(), "START"); err != nil {
+		ws.ExperimentStateFilename = previousFilename
+		return err
+	}
 	ws.Active = true
 	ws.Paused = false
 	ws.BasePath = path
@@ -73,10 +80,9 @@ func (ws *WritingState) Start(filenamePattern, path string, config *WriteControl
 	ws.WriteLJH3 = config.WriteLJH3
 	ws.WriteOFF = config.WriteOFF
 	ws.FilenamePattern = filenamePattern
-	ws.ExperimentStateFilename = fmt.Sprintf(filenamePattern, "experiment_state", "txt")
 	ws.ExternalTriggerFilename = fmt.Sprintf(filenamePattern, "external_trigger", "bin")
 	ws.DataDropFilename = fmt.Sprintf(filenamePattern, "data_drop", "txt")
-	return ws.setExperimentStateLabel(time.Now(), "START")
+	return nil
 }
 
 // Stop will set the WritingState to be completely stopped
